@@ -5,6 +5,44 @@ Require Import Gen.Tables Gen.Preds.
 From Coq Require Import ZifyBool ZifyN ZifyNat.
 
 (* ------------------------------------------------------------------ *)
+(* comment trimming keeps a prefix                                      *)
+(* ------------------------------------------------------------------ *)
+
+Lemma strip_prefix_suffix : forall p s r, strip_prefix p s = Some r -> exists q, s = q ++ r.
+Proof.
+  induction p as [|x p IH]; intros s r H; cbn [strip_prefix] in H.
+  - inversion H; subst. exists []. reflexivity.
+  - destruct s as [|y s]; [discriminate|]. destruct (N.eqb x y); [|discriminate].
+    destruct (IH _ _ H) as [q Hq]. exists (y :: q). cbn [app]. rewrite Hq. reflexivity.
+Qed.
+
+Lemma first_strip_suffix : forall ps s r, first_strip ps s = Some r -> exists q, s = q ++ r.
+Proof.
+  induction ps as [|p ps IH]; intros s r H; cbn [first_strip] in H; [discriminate|].
+  destruct (strip_prefix p s) as [r0|] eqn:E.
+  - inversion H; subst. exact (strip_prefix_suffix _ _ _ E).
+  - exact (IH _ _ H).
+Qed.
+
+Lemma trim_rev_suffix : forall fuel r, exists q, r = q ++ trim_rev fuel r.
+Proof.
+  induction fuel as [|f IH]; intro r; cbn [trim_rev]; [exists []; reflexivity|].
+  destruct r as [|c r']; [exists []; reflexivity|].
+  destruct (ascii_uspace c).
+  - destruct (IH r') as [q Hq]. exists (c :: q). cbn [app]. rewrite <- Hq. reflexivity.
+  - destruct (first_strip uspace_tails (c :: r')) as [r''|] eqn:E; [|exists []; reflexivity].
+    destruct (first_strip_suffix _ _ _ E) as [q1 H1]. destruct (IH r'') as [q2 H2].
+    exists (q1 ++ q2). rewrite <- app_assoc, <- H2. exact H1.
+Qed.
+
+(* the trimmed comment text is a prefix of the text read *)
+Lemma trim_right_spaces_prefix s : exists t, s = trim_right_spaces s ++ t.
+Proof.
+  unfold trim_right_spaces. destruct (trim_rev_suffix (length s) (rev s)) as [q Hq].
+  exists (rev q). rewrite <- rev_app_distr, <- Hq, rev_involutive. reflexivity.
+Qed.
+
+(* ------------------------------------------------------------------ *)
 (* 0. end of input is a fixed point (direct computation)               *)
 (* ------------------------------------------------------------------ *)
 
